@@ -1248,6 +1248,9 @@ class Model:
                 r.kind = 'raw'
                 return r
             return Opaque(f'{name}(⊤)')
+        if name == 'open':
+            # never touch the real file system from the analysis: a model that wants files provides them (builtins.open in call_ext)
+            raise AnalysisError(f'open() is not modelled at {interp.where(node)}')
         if name in ('max', 'min') and kwargs.get('key') is not None and args and not isinstance(args[0], Opaque | SVar):
             seq = list(interp.iterate(args[0], node)) if len(args) == 1 else list(args)
             if not seq:
